@@ -38,7 +38,7 @@ CLASS_FLOORS = {"refused-add": 20, "accepted-add": 50, "collision-same-cell": 5,
                 "equal-checksums-duplicate-accepted": 5, "doc-1.0-collision": 5, "doc-1.1-collision": 5, "doc-1.2-collision": 5,
                 "doc-1.1-clean": 5, "doc-1.2-clean": 5, "situation-constructed": 10, "situation-1.0": 10, "situation-1.1": 10,
                 "situation-1.2": 10, "same-object-readded": 5, "load-then-add-1.0": 5, "load-then-add-1.1": 5,
-                "load-then-add-1.2": 5}
+                "load-then-add-1.2": 5, "variant-deleted": 20, "clean-document-loaded-into-non-empty-manifest": 20}
 for a in domains.IDENTITY_ATTRS:
     CLASS_FLOORS["one-attr-differs-%s-accepted" % a] = 5
 
@@ -120,6 +120,19 @@ def gen_history(rng):
             c = cell if rng.random() < 0.5 else [rng.choice(variants), rng.choice(arches)]
             lead.append(list(c) + [idx])
         ops = lead + ops
+    # `del manifest[variant]` is public API too: the rule is about what the manifest HOLDS, so an image removed with its
+    # variant no longer blocks its rival - and an image object that is also filed under another variant still does
+    if rng.random() < 0.5:
+        for _ in range(rng.randint(1, 3)):
+            ops.insert(rng.randrange(len(ops) // 3, len(ops) + 1), [rng.choice(variants), None, "del"])
+        if rng.random() < 0.6:
+            # the same object under two variants, one of them deleted, then the rival
+            v1 = variants[0]
+            v2 = variants[-1]
+            a = arches[0]
+            j, rv = rng.choice([(0, 2), (2, 0), (9, 11), (12, 13)])
+            tail = [[v1, a, j], [v2, a, j], [v1, None, "del"], [v2 if v1 != v2 else v1, a, rv], [v1, a, rv]]
+            ops = ops + tail
     return {"pool": pool, "ops": ops, "situation": None}
 
 
@@ -204,6 +217,26 @@ def check_history(ctx, pm, H):
     tainted = False     # an add the model refuses was accepted (reported once by add-outcome)
     for step, (variant, arch, idx) in enumerate(H["ops"]):
         before = snapshot(im, objs)
+        if idx == "del":
+            if not any(k[0] == variant for k in before):
+                continue
+            ctx.count("variant-deleted")
+            case = {"pool": pool, "ops": H["ops"][:step + 1], "situation": sit, "step": step}
+            try:
+                del im[variant]
+                problem = None
+            except Exception as e:
+                problem = "%s: %s" % (type(e).__name__, e)
+            for k in [k for k in model.cells if k[0] == variant]:
+                del model.cells[k]
+            after = snapshot(im, objs)
+            expect = dict((k, v) for k, v in before.items() if k[0] != variant)
+            bad = problem is not None or after != expect
+            ctx.monitor("state-after-call", fired=bad)
+            if bad:
+                ctx.violation("state-after-call", "deleting a variant removes exactly its cells", case, observed=problem or cells_json(after),
+                              expected=cells_json(expect))
+            continue
         already = idx in model.cells.get((variant, arch), set())
         verdict, hit = model.add(variant, arch, idx)
         try:
@@ -292,6 +325,9 @@ def check_history(ctx, pm, H):
             ctx.note_add("second_manifest_case_skipped")
     # the written file is always current-version and must itself satisfy the rule
     case = {"pool": pool, "ops": H["ops"], "situation": sit, "step": len(H["ops"])}
+    load_into = None
+    if gated and cands and not tainted:
+        load_into = (cands[(len(H["ops"]) // 2) % len(cands)], im.header.version)
     try:
         textout = im.dumps()
     except Exception as e:
@@ -321,6 +357,26 @@ def check_history(ctx, pm, H):
                 key = "fresh-images-skips-identity-check"
             ctx.violation("written-file-reloads", "the manifest produced by the add history can be written and the written (current-version) "
                           "file loads back with the same images", case, observed=problem or cells_json(got), expected=cells_json(want), key=key)
+    # "whatever sequence of add calls or loaded file produced the manifest": a clean document is loaded INTO this non-empty
+    # manifest; it carries one image that rivals an image already filed.  Whether the load is refused or merges is not
+    # judged - the manifest afterwards is (no colliding pair).
+    if load_into is not None and textout is not None:
+        j, ver = load_into
+        doc = render_doc(pool, [["Server", "x86_64", rivals[j]]], "1.2")
+        case3 = {"pool": pool, "ops": H["ops"], "situation": sit, "then_loaded_into_it": doc["payload"]["images"]}
+        try:
+            im.loads(json.dumps(doc))
+            got3 = "loaded"
+        except Exception as e:
+            got3 = "rejected (%s)" % type(e).__name__
+        ctx.count("clean-document-loaded-into-non-empty-manifest")
+        if im.header.version_tuple >= (1, 1):
+            pairs = walk_invariant(im)
+            ctx.monitor("invariant-no-colliding-pair", fired=bool(pairs))
+            if pairs:
+                ctx.violation("invariant-no-colliding-pair", "no two images equal on the seven identity attributes have different checksums - "
+                              "whatever sequence of add calls and loaded files produced the manifest", case3,
+                              observed={"load": got3, "pairs": pairs[:4]}, expected="none")
     return acc, ref
 
 
@@ -537,5 +593,5 @@ def replay(ctx, case):
     elif "attrs" in case:
         check_identify(ctx, pm, [{"attrs": case["attrs"], "tag": "replay"}])
     else:
-        check_history(ctx, pm, {"pool": case["pool"], "ops": case["ops"], "situation": case["situation"]})
+        check_history(ctx, pm, {"pool": case["pool"], "ops": [tuple(o) for o in case["ops"]], "situation": case["situation"]})
     ctx.case_done(case)
